@@ -126,14 +126,15 @@ def veq(a, b, F):
     return False
 
 
-def run_iteration(ip, st, fr, H, var, N, placeholders, region=None, cont=None):
+def run_iteration(ip, st, fr, H, var, N, placeholders, region=None, cont=None, runner=None):
     s = st.fork()
     v = Lin.sym(var)
     s.F.add_ge(v)
     if N is not None:
         s.F.add_ge(N - 1 - v)
     s.F.saturate({var})
-    s.loopmode[(fr.id, H)] = ("iter", var) if region is None else ("while", var)
+    if H is not None:
+        s.loopmode[(fr.id, H)] = ("iter", var) if region is None else ("while", var)
     s.wlog = []
     s.rlog = []
     for (cell, fpath), ph in placeholders.items():
@@ -142,7 +143,10 @@ def run_iteration(ip, st, fr, H, var, N, placeholders, region=None, cont=None):
     c0 = len(s.conds)
     o0 = len(s.oblig)
     e0 = len(s.events)
-    outs = ip.exec_from(s, fr, H, stop_at=H, start=True, region=region)
+    if runner is not None:
+        outs = [("stop", s2, None) for s2 in runner(s, Lin.sym(var))]
+    else:
+        outs = ip.exec_from(s, fr, H, stop_at=H, start=True, region=region)
     res = []
     for kind, s2, _ in outs:
         if kind == "stop":
@@ -221,14 +225,33 @@ def summarise_loop(ip, st, fr, H):
             return out
         N, affine = res
         cont = True
+    return _summarise_core(ip, st, fr, H, N, var, affine, region, cont, None, is_iter)
+
+
+def summarise_call_loop(ip, st, fr, N, runner):
+    """a loop expressed as a call per element (Iterator::for_each): runner(state, index) -> states."""
+    return _summarise_core(ip, st, fr, None, lin(N), T.fresh("$i"), {}, None, None, runner, True)
+
+
+def _summarise_core(ip, st, fr, H, N, var, affine, region, cont, runner, is_iter):
+    key = (fr.id, H) if H is not None else None
     if st.F.prove_eq(N):
-        st.loopmode[key] = ("done",)
+        if key is not None:
+            st.loopmode[key] = ("done",)
         return [st]
     if is_iter and N.is_const() and 0 < N.c <= 3:
-        return unroll_loop(ip, st, fr, H, N.c)
+        if runner is None:
+            return unroll_loop(ip, st, fr, H, N.c)
+        states = [st]
+        for k in range(N.c):
+            nxt = []
+            for s in states:
+                nxt.extend(runner(s, lin(k)))
+            states = nxt
+        return states
     # 2. discovery pass
     fixed = {loc: affine_value(a, Lin.sym(var)) for loc, a in affine.items()}
-    outsA, c0, _, _ = run_iteration(ip, st, fr, H, var, N, dict(fixed), region, cont)
+    outsA, c0, _, _ = run_iteration(ip, st, fr, H, var, N, dict(fixed), region, cont, runner)
     carried = {}
     mapped = {}
     for s in outsA:
@@ -279,7 +302,7 @@ def summarise_loop(ip, st, fr, H):
             refph[loc] = (n1, n2)
     ph2 = dict(ph)
     ph2.update(fixed)
-    outs, c0, o0, e0 = run_iteration(ip, st, fr, H, var, N, ph2, region, cont)
+    outs, c0, o0, e0 = run_iteration(ip, st, fr, H, var, N, ph2, region, cont, runner)
     Fi = outs[0].F.copy() if len(outs) == 1 else st.F.copy()
     v = Lin.sym(var)
     if len(outs) != 1:
@@ -487,7 +510,8 @@ def summarise_loop(ip, st, fr, H):
         if any(nm in value_names(fv) for nm in names):
             raise Undecided("final loop value still mentions carried state")
         ip.store(sp, Target(loc[0], loc[1]), fv)
-    sp.loopmode[key] = ("done",)
+    if key is not None:
+        sp.loopmode[key] = ("done",)
     return [sp]
 
 
